@@ -646,6 +646,133 @@ def beyond_cases(args):
     return out
 
 
+# Text characters (all in the default TextChars) that are opcodes of 2/3-byte instructions, none of them a jump/return that
+# ends a routine: '!' LD HL,nn  '"' LD (nn),HL  '*' LD HL,(nn)  '1' LD SP,nn  '2' LD (nn),A  ':' LD A,(nn)  '&' '.' '6' '>' LD r,n
+# and the relative jumps ' ' '(' '0' '8'; and some one-byte ones
+TEXT_MULTI = b'!"*12:&.6> (08'
+TEXT_ONE = b'ABCDEHLMOX[]abcdeghlmox?<=-,+%$#'
+ARG_MULTI = (0x21, 0x01, 0x11, 0x31, 0x32, 0x3A, 0x2A, 0x22, 0xC2, 0xCD, 0xCA, 0xDD, 0xFD, 0xED, 0xCB, 0x3E, 0x06, 0x36, 0xC3, 0x18)
+
+
+def rsttext_image(rnd, prog, minlen):
+    """-> (bytes, [(offset of RST, arguments)], text start, text end)"""
+    mem = [rnd.choice((0xAF, 0x3C, 0x04, 0x23, 0xB7)) for _ in range(rnd.randrange(0, 4))]
+    sites = []
+    for _ in range(rnd.randrange(1, 3)):
+        if rnd.random() < 0.5:
+            mem += rnd.choice(SAFE)
+        n = rnd.choice(sorted(prog))
+        sargs = [rnd.choice(ARG_MULTI) if rnd.random() < 0.85 else rnd.randrange(256) for _ in range(prog[n])]
+        sites.append((len(mem), sargs))
+        mem += [0xC7 + n] + sargs
+        if rnd.random() < 0.4:
+            mem += rnd.choice(SAFE)
+    tlen = rnd.randrange(minlen, 31)
+    t_start = len(mem)
+    # all characters 3-byte opcodes / all 2-byte opcodes: two decodings that are out of step at the beginning stay so; or any mixture
+    chars = rnd.choice((TEXT_MULTI[:6], TEXT_MULTI[:6], TEXT_MULTI[6:], TEXT_MULTI, TEXT_MULTI + TEXT_ONE))
+    mem += [rnd.choice(chars) for _ in range(tlen)]
+    t_end = len(mem)
+    mem += [rnd.choice((0x06, 0x3E, 0x21, 0x01, 0x11, 0xDD, 0xFD, 0xED, 0xCB, 0x87, 0xAF, 0x00)) for _ in range(rnd.randrange(1, 5))]
+    mem += rnd.choice(([0xC9], [0xC9], [0xC3, 0x00, 0x80], [0x18, 0xFE]))
+    if rnd.random() < 0.7:
+        mem += [b for _ in range(rnd.randrange(1, 4)) for b in rnd.choice(SAFE)] + [0xC9]
+    return mem, sites, t_start, t_end
+
+
+def rsttext_props(mem, sites, t_start, t_end, handled):
+    """What the input is: the instructions of the block the text is in as sna2ctl is told they are (handled: RST n + arguments is one
+    instruction) and as a decoder that forgets the arguments sees them from the start of that block; where the first instruction
+    at or after the end of the text begins in either."""
+    size = len(mem)
+    memx = mem + [0] * 4
+
+    def bounds(frm, hd):
+        b, p, blk = set(), frm, frm
+        while p < size:
+            b.add(p)
+            e = is_end_at(memx, p)[0]
+            p += z80len.length(memx, p) + (hd.get(memx[p] - 0xC7, 0) if memx[p] & 0xC7 == 0xC7 else 0)
+            if e and p <= t_start:
+                b, blk = set(), p            # a new block begins (before the text)
+        b.add(max(p, size))
+        return b, blk
+    bh, blk = bounds(0, handled)
+    bp = bounds(blk, {})[0] if blk < size else bh
+    rh, rp = (min((a for a in b if a >= t_end), default=size) for b in (bh, bp))
+    # where the block ends (after its first jump/return behind the text); does a decoding from the other resume address step over that?
+    p, blk_end = rh, size
+    while p < size:
+        e = is_end_at(memx, p)[0]
+        p += z80len.length(memx, p) + (handled.get(memx[p] - 0xC7, 0) if memx[p] & 0xC7 == 0xC7 else 0)
+        if e:
+            blk_end = min(p, size)
+            break
+    p = rp
+    while p < blk_end:
+        p += z80len.length(memx, p) + (handled.get(memx[p] - 0xC7, 0) if memx[p] & 0xC7 == 0xC7 else 0)
+    return {'rt_handled_site': 1 if any(handled.get(mem[o] - 0xC7, 0) == len(a) and blk <= o < t_start for o, a in sites) else 0,
+            'rt_text_after_code': 1 if blk < t_start else 0,
+            'rt_resume_differs': 1 if rh != rp else 0,
+            'rt_resume_inside': 1 if rp not in bh else 0,         # the other resume address is inside an instruction
+            'rt_overrun': 1 if rp not in bh and p > blk_end and blk_end < size else 0}     # .. and from there the next block is run into
+
+
+def rsttext_cases(args):
+    """No code map: [0-3 one-byte instructions] [code with an RST n + inline arguments, values mostly first bytes of multi-byte
+    instructions] [a run of text characters that are opcodes, TextMinLengthCode..30 long] [a short tail of opcode-valued bytes ending
+    in RET/JP] [sometimes another routine]; with / without -r and RSTHandlerConfig as the image means it, default, or another.
+    Three quarters of the images are drawn until the two decodings (see rsttext_props) differ where the code resumes."""
+    seed, n_cases, wd = args
+    from ..lib import cbuild
+    cbuild.repo_only()
+    rnd = random.Random(seed)
+    sub = os.path.join(wd, 'x%d' % seed)
+    os.makedirs(sub, exist_ok=True)
+    signal.signal(signal.SIGVTALRM, _alarm)
+    out = []
+    for k in range(n_cases):
+        org = rnd.choice((0x8000, 40000, 30000, 0xC000))
+        prog = {8: 1} if rnd.random() < 0.45 else {n: rnd.choice((1, 2)) for n in rnd.sample(range(0, 64, 8), rnd.randrange(1, 3))}
+        minlen = rnd.choice((12, 12, 8, 5))
+        opts, rstcfg = [], ''
+        if minlen != 12:
+            opts += ['-I', 'TextMinLengthCode=%d' % minlen]
+        if rnd.random() < 0.8:
+            opts.append(rnd.choice(('-r', '--handle-rst')))
+            r = rnd.random()
+            if r < 0.8:
+                if prog != {8: 1} or rnd.random() < 0.5:
+                    rstcfg = rst_config_text(prog)
+            elif r < 0.9:
+                rstcfg = rst_config_text({n: rnd.choice((1, 2)) for n in rnd.sample(range(0, 64, 8), rnd.randrange(1, 4))})
+        if rnd.random() < 0.15:
+            opts.append('-h' if rnd.random() < 0.6 else '-l')
+        if rnd.random() < 0.2:
+            opts.append('-C')
+        handled = rst_config_of(rstcfg or '8:B') if ('-r' in opts or '--handle-rst' in opts) else {}
+        want = rnd.random() < 0.75
+        for _ in range(60):
+            mem, sites, t_start, t_end = rsttext_image(rnd, prog, minlen)
+            props = rsttext_props(mem, sites, t_start, t_end, handled)
+            if not want or not handled or (props['rt_handled_site'] and props['rt_resume_differs'] and props['rt_resume_inside']
+                                           and (props['rt_overrun'] or _ % 3 == 2)):
+                break
+        size = len(mem)
+        full = [0] * 65536
+        full[org:org + size] = mem
+        start, end = org, org + size
+        binf = os.path.join(sub, 'i%d.bin' % k)
+        open(binf, 'wb').write(bytes(mem))
+        args_ = ['-o', str(org), '-s', str(start), '-e', str(end)] + opts
+        c = drive_out(sub, k, binf, args_, 1, start, end, [], '', full, 'rsttext', org, mem, rstcfg)
+        c['map_outside'] = []
+        c.update(props)
+        c['rt_text_in_code'] = 1 if props['rt_text_after_code'] and any(d[0] == 't' and org + t_start <= d[1] < org + t_end for d in c['dirs']) else 0
+        out.append(c)
+    return out
+
+
 def rst_stats(c, sites, prog):
     """What of the interesting input class the case has (for the vacuity guard and the violation key)"""
     handled = rst_config_of(c['rstcfg'] or '8:B') if ('-r' in c['args'] or '--handle-rst' in c['args']) else {}
@@ -899,5 +1026,5 @@ def out_replay(wd, rp, mapfmt):
     full[org:org + len(mem)] = mem
     c = drive_out(wd, 0, binf, args_, rp['strict'], rp['start'], rp['end'], list(rp['map']), mapfmt, full, rp.get('image_kind', '?'), org, mem,
                   rp.get('rstcfg', ''))
-    c.update({k: v for k, v in rp.items() if k.startswith(('rst_', 'cut_', 'map_outside')) and k not in c})         # (what the input is, see rst_stats)
+    c.update({k: v for k, v in rp.items() if k.startswith(('rst_', 'cut_', 'rt_', 'map_outside')) and k not in c})         # (what the input is, see rst_stats)
     return c
